@@ -36,6 +36,16 @@ Space (everything below is enumerated completely, nothing is sampled)
              payee ~, narration ~, has_account('Expenses'), has_account('cash'), NOT has_account('Cash');
              'food' / 'ntag' IN tags, 'trip' / 'dlink' IN links, 'food' NOT IN tags, alone and with type = ...; the
              OPEN/CLOSE/CLEAR list, alone and under three expressions   (per ledger: quick 57, thorough 282)
+  parameters (DB-API query parameters) every literal of the FROM expression / WHERE condition replaced by a placeholder,
+             in both styles (positional %s, named %(pN)s), the statement executed from TEXT with the values as
+             parameters, alternately through Connection.execute and Cursor.execute (PRINT, which the cursor does not
+             execute: compiler.compile(context, statement, parameters) + execute_print):
+             BALANCES  AT f in {absent, units, cost} x 5 (FROM, WHERE) pairs (a parameter in FROM only, in WHERE only,
+             in both, two in FROM + one in WHERE, with OPEN ON / CLEAR) x 2 styles = 30;  JOURNAL  3 FROM clauses (one,
+             two parameters, with OPEN ON / CLOSE ON) x pattern in {absent, 'Assets:Cash|Expenses'} x AT f in {absent,
+             cost} x 2 styles = 24;  PRINT  3 FROM clauses (two parameters str + date, a function argument, with OPEN ON /
+             CLOSE ON) x 2 styles = 6.  Values: int, str (regular expressions included), datetime.date.
+             BALANCES / JOURNAL on every BJ ledger, PRINT on every P ledger, all of them on the extra ledgers.
   text       every distinct statement of the menus is unparsed (vt.unparse), parsed by the real parser and must
              give exactly the AST that is executed (so that feeding ASTs is the same as feeding text).
 
@@ -58,6 +68,11 @@ Oracle
       in ledger order, by the Python predicate of the FROM expression;  lossless clause: the text re-loaded with
       beancount.loader.load_string yields no errors other than validation errors about unopened accounts and, in
       order, directives with the same hash_entry(exclude_meta=True) and the same user metadata.
+  (d) parameters: the statement executed with parameters returns exactly (rows by type and value, datatypes /
+      printed text) what the same statement with the values written as literals returns (that statement is a member
+      of the menus above or checked the same way: oracles (a)-(c)), and BALANCES / JOURNAL what the SELECT expansion
+      of (a) / (b) returns when executed from text with the same placeholders and the same parameters.  Any exception
+      (a bare KeyError from the compiler included) is a violation.
   For OPEN / CLOSE / CLEAR the universe the predicates run over is ``entries-table.update(open=, close=,
   clear=).prepare()`` of the real tables with the clause values given by this check (C13 owns the semantics of the
   summarisation itself; C14 checks that the three statements apply exactly those clauses and then the expression).
@@ -85,7 +100,8 @@ Harness note: compiler.transform_balances / transform_journal re-parse a templat
   through the real parser once per process, failures included), as C13 does.
 Fingerprints: balances:order | balances:rows | balances:datatypes | balances:columns,
   journal:rows | journal:col:<date|flag|payee|narration|account|position|balance> | journal:datatypes |
-  journal:columns | journal:pattern-quote, print:selection | print:rendering | print:roundtrip | print:roundtrip-meta,
+  journal:columns | journal:pattern-quote, balances:parameters | journal:parameters | print:parameters (differs from the
+  literal statement) | select:parameters (differs from the parameterised SELECT), print:selection | print:rendering | print:roundtrip | print:roundtrip-meta,
   text:<kind> (unparse/parse disagreement), crash fingerprints (vt.harness.crash_fingerprint).
   When something is reported the family is re-walked simplest first (<= 2 snippets) so that the recorded case of
   every fingerprint is the smallest ledger and earliest statement showing it.
@@ -95,11 +111,14 @@ Finding on the unchanged tree: ``journal:pattern-quote`` -- transform_journal fo
   postings although no account matches that regular expression).
 """
 import collections
+import dataclasses
 import datetime
+import functools
 import io
 import re
 
 import beanquery
+from beanquery import compiler as bq_compiler
 from beanquery import parser as bq_parser
 from beanquery import query_execute
 from beancount import loader
@@ -517,6 +536,94 @@ def show(stmt):
 
 
 # ---------------------------------------------------------------------------------------------------------
+# query parameters: the same statements with every literal of the FROM expression / WHERE condition replaced by a
+# DB-API placeholder (positional %s or named %(pN)s), executed from TEXT with the values passed as parameters
+
+STYLES = ['positional', 'named']
+
+#: (FROM specification, WHERE name) of the parameterised BALANCES statements: a parameter in the FROM expression only,
+#: in the WHERE condition only, in both, two in the FROM expression (with and without OPEN / CLEAR clauses)
+P_BALANCES = [(('year = 2020', None, None, None), 'none'),
+              (('none', None, None, None), "account ~ 'Assets'"),
+              (('date < 2020-01-10', None, None, None), "account ~ 'Income|Expenses|Equity'"),
+              (("year = 2020 AND NOT has_account('Inv')", None, None, None), 'number > 0'),
+              (('year = 2020', D_IN1, None, True), "currency = 'USD'")]
+P_JOURNAL_FROMS = [('year = 2020', None, None, None), ("year = 2020 AND NOT has_account('Inv')", None, None, None),
+                   ("flag = '*'", D_IN1, D_IN2, None)]
+P_JOURNAL_PATTERNS = [None, 'Assets:Cash|Expenses']
+P_JOURNAL_FUNCS = [None, 'cost']
+P_PRINT_FROMS = [("type = 'transaction' AND date < 2020-01-10", None, None, None), ("has_account('Expenses')", None, None, None),
+                 (f"narration ~ '{NARR_RE}'", D_IN1, D_IN2, None)]
+
+
+def _placeholders(node, values, named):
+    """Copy of an AST with every Constant replaced by a placeholder; ``values`` collects (name, value)."""
+    if isinstance(node, A.Constant):
+        name = f'p{len(values)}'
+        values.append((name, node.value))
+        return A.Placeholder(name if named else '')
+    if isinstance(node, A.Node):
+        return type(node)(**{fld.name: _placeholders(getattr(node, fld.name), values, named)
+                             for fld in dataclasses.fields(node) if fld.name != 'parseinfo'})
+    if isinstance(node, list):
+        return [_placeholders(x, values, named) for x in node]
+    return node
+
+
+def _parameterise(stmt, where):
+    """(AST with placeholders, text, parameters) for both styles: {style: (ast, text, parameters)}.  Only the FROM
+    clause and (``where``) the WHERE condition are rewritten: the literals of the SELECT expansion itself
+    (maxwidth widths, the JOURNAL pattern) stay literals.  Positional parameters are listed in TEXTUAL order."""
+    out = {}
+    for named in (True, False):
+        values = []
+        kw = {'from_clause': _placeholders(stmt.from_clause, values, named)}
+        if where:
+            kw['where_clause'] = _placeholders(stmt.where_clause, values, named)
+        out[named] = (dataclasses.replace(stmt, **kw), values)
+    named_text = unparse.unparse(out[True][0])
+    pos_text = unparse.unparse(out[False][0])
+    order = re.findall(r'%\((p\d+)\)s', named_text)
+    values = dict(out[True][1])
+    assert sorted(order) == sorted(values) and re.sub(r'%\(p\d+\)s', '%s', named_text) == pos_text, (named_text, pos_text)
+    return {'named': (out[True][0], named_text, values),
+            'positional': (out[False][0], pos_text, tuple(values[n] for n in order))}
+
+
+@functools.lru_cache(maxsize=None)
+def param_form(kind, params):
+    """-> (literal statement, {style: (ast, text, parameters)} of the statement, the same of its SELECT expansion or None)."""
+    if kind == 'pbalances':
+        return balances_stmt(*params), _parameterise(balances_stmt(*params), True), _parameterise(balances_ref(*params), True)
+    if kind == 'pjournal':
+        return journal_stmt(*params), _parameterise(journal_stmt(*params), False), _parameterise(journal_ref(*params), False)
+    assert kind == 'pprint'
+    return print_stmt(*params), _parameterise(print_stmt(*params), False), None
+
+
+def param_stmt(kind, params, style):
+    return param_form(kind, params)[1][style][0]
+
+
+def param_cases():
+    out = []
+    for spec, w in P_BALANCES:
+        for f in FUNCS:
+            for style in STYLES:
+                out.append(('pbalances', ((f, spec, w), style)))
+    for spec in P_JOURNAL_FROMS:
+        for pat in P_JOURNAL_PATTERNS:
+            for f in P_JOURNAL_FUNCS:
+                for style in STYLES:
+                    out.append(('pjournal', ((pat, f, spec), style)))
+    return out
+
+
+def param_print_cases():
+    return [('pprint', ((spec,), style)) for spec in P_PRINT_FROMS for style in STYLES]
+
+
+# ---------------------------------------------------------------------------------------------------------
 class Ledger:
     """A loaded ledger + the reference's view of it."""
 
@@ -840,6 +947,95 @@ class Checker:
         return got
 
 
+    # ---- query parameters ----------------------------------------------------------------------------
+    def _run_text(self, kind, text, values, cursor):
+        """Execute statement TEXT with parameters: rows + datatypes, or the printed text."""
+        conn = self.led.conn
+        if kind == 'pprint':
+            c_print = bq_compiler.compile(conn, conn.parse(text), values)
+            buf = io.StringIO()
+            query_execute.execute_print(c_print, buf)
+            return buf.getvalue()
+        cur = conn.cursor().execute(text, values) if cursor else conn.execute(text, values)
+        return cur.fetchall(), [d.datatype for d in cur.description]
+
+    def _run_literal(self, kind, stmt):
+        if kind == 'pprint':
+            buf = io.StringIO()
+            query_execute.execute_print(self.led.conn.compile(stmt), buf)
+            return buf.getvalue()
+        return run_query(self.led.conn, stmt)
+
+    @staticmethod
+    def _same_result(kind, a, b):
+        if kind == 'pprint':
+            return a == b
+        return same_rows(a[0], b[0]) and a[1] == b[1]
+
+    def param(self, kind, params, style, order):
+        """The statement with its literals passed as query parameters returns what the statement with the literals
+        written out returns, and what the SELECT expansion executed with the same parameters returns."""
+        acc, led = self.acc, self.led
+        literal, forms, ref_forms = param_form(kind, params)
+        _, text, values = forms[style]
+        name = kind[1:]
+        case = {'kind': kind, 'params': jparams(params), 'style': style, 'order': order}
+        acc.count('param_statements')
+        acc.count(f'param_{name}_statements')
+        acc.count('statements')
+        shown = f'{text} with parameters {values!r}'
+        try:
+            got = self._run_text(kind, text, values, cursor=(order % 2 == 1))
+        except Exception as exc:
+            self.violation(crash_fingerprint(exc), f'{shown} raised {type(exc).__name__}: {exc!r}; the statement with the '
+                           f'values written as literals is {show(literal)}', case)
+            return
+        try:
+            lit = self._run_literal(kind, literal)
+        except Exception as exc:
+            self.violation(crash_fingerprint(exc), f'{show(literal)} raised {type(exc).__name__}: {exc}', case)
+            return
+        n = len(got[0]) if kind != 'pprint' else len(re.findall(r'^\d{4}-\d\d-\d\d ', got, re.MULTILINE))
+        acc.count('rows_compared', n)
+        acc.count('cells_compared', n * {'pbalances': 2, 'pjournal': 7, 'pprint': 1}[kind])
+        if not self._same_result(kind, got, lit):
+            self.violation(f'{name}:parameters', f'{shown} returned {_brief(got)}; {show(literal)} returned {_brief(lit)}', case)
+            return
+        if ref_forms is not None:
+            _, rtext, rvalues = ref_forms[style]
+            try:
+                sel = self._run_text(kind, rtext, rvalues, cursor=False)
+            except Exception as exc:
+                self.violation('select:' + crash_fingerprint(exc), f'{rtext} with parameters {rvalues!r} raised {type(exc).__name__}: {exc!r}', case)
+                return
+            if not self._same_result(kind, got, sel):
+                self.violation('select:parameters', f'{shown} returned {_brief(got)}; {rtext} with parameters {rvalues!r} returned {_brief(sel)}', case)
+                return
+        acc.count('param_compared')
+        acc.count('nontrivial' if n else 'empty_results')
+        if n:
+            acc.count('param_nontrivial')
+        acc.add('param_outcomes', hash(repr(got)))
+        if n > 1 and order % 5 == 2 and not any('parameters' in x for x in acc.samples if isinstance(x, dict)):
+            acc.sample({'ledger': led.label, 'statement': text, 'parameters': repr(values), 'result': _brief(got)}, limit=9)
+        return got
+
+
+def _brief(result):
+    if isinstance(result, str):
+        return repr(result[:300])
+    return f'{len(result[0])} rows {result[0][:4]!r}'
+
+
+def jparams(params):
+    """JSON form of a parameterised case: the FROM specification is the last element of the statement's parameters
+    for JOURNAL / PRINT and the second for BALANCES."""
+    return [spec_json(x) if isinstance(x, tuple) else x for x in params]
+
+
+def unjparams(params):
+    return tuple(spec_unjson(x) if isinstance(x, list) else x for x in params)
+
 def user_meta(entry):
     out = [{k: v for k, v in (entry.meta or {}).items() if k not in ('filename', 'lineno') and not k.startswith('__')}]
     if _txn(entry):
@@ -865,11 +1061,11 @@ def bj_cases(thorough):
         for f in FUNCS:
             for spec in ACCOUNT_FROMS:
                 out.append(('journal', (pat, f, spec)))
-    return out
+    return out + param_cases()
 
 
 def print_cases(thorough):
-    return [('print', (spec,)) for spec in print_from_menu(thorough)]
+    return [('print', (spec,)) for spec in print_from_menu(thorough)] + param_print_cases()
 
 
 def explore_ledger(acc, led, cases):
@@ -880,8 +1076,10 @@ def explore_ledger(acc, led, cases):
             chk.balances(*params, order)
         elif kind == 'journal':
             chk.journal(*params, order)
-        else:
+        elif kind == 'print':
             chk.print_(*params, order)
+        else:
+            chk.param(kind, params[0], params[1], order)
 
 
 def family_ledger(names, text, seed):
@@ -911,7 +1109,10 @@ def text_phase(acc, shard, nshards, thorough):
     conn = beanquery.Connection()
     stmts = []
     for kind, params in bj_cases(thorough) + print_cases(thorough):
-        stmts.append((kind, {'balances': balances_stmt, 'journal': journal_stmt, 'print': print_stmt}[kind](*params)))
+        if kind.startswith('p') and kind != 'print':
+            stmts.append((kind[1:], param_stmt(kind, *params)))
+        else:
+            stmts.append((kind, {'balances': balances_stmt, 'journal': journal_stmt, 'print': print_stmt}[kind](*params)))
     seen = set()
     for i, (kind, stmt) in enumerate(stmts):
         if not mine(i, shard, nshards):
@@ -979,6 +1180,10 @@ def replay(case):
     else:
         led = extra_ledger(ld['extra'], seed)
     chk = Checker(acc, led)
+    if case['kind'] in ('pbalances', 'pjournal', 'pprint'):
+        chk.param(case['kind'], unjparams(case['params']), case['style'], case.get('order', 0))
+        want = case.get('fingerprint')
+        return [v for v in acc.violations if want is None or v.fingerprint == want]
     spec = spec_unjson(case['from'])
     if case['kind'] == 'balances':
         chk.balances(case['f'], spec, case['where'], case.get('order', 0))
@@ -1015,8 +1220,8 @@ def minimise(violations, seed, thorough):
                 return
 
     bj = bj_cases(thorough)
-    walk(BJ_EXCLUDE, [c for c in bj if c[0] == 'balances'], [fp for fp in fps if not fp.startswith(('journal:', 'print:'))])
-    walk(BJ_EXCLUDE, [c for c in bj if c[0] == 'journal'], [fp for fp in fps if not fp.startswith(('balances:', 'print:'))])
+    walk(BJ_EXCLUDE, [c for c in bj if c[0] in ('balances', 'pbalances')], [fp for fp in fps if not fp.startswith(('journal:', 'print:'))])
+    walk(BJ_EXCLUDE, [c for c in bj if c[0] in ('journal', 'pjournal')], [fp for fp in fps if not fp.startswith(('balances:', 'print:'))])
     walk((), print_cases(thorough), [fp for fp in fps if not fp.startswith(('balances:', 'journal:'))])
     return [found[fp] for fp in fps if fp in found] + sorted(violations, key=_size)
 
@@ -1065,6 +1270,15 @@ def run(ctx):
         'patterns': [repr(p) for p in PATTERNS],
         'full_account_name_patterns': ACCOUNT_PATTERNS,
         'from_menu_of_the_full_account_name_patterns': [show_spec(s) for s in ACCOUNT_FROMS],
+        'parameterised_statements': sorted({param_form(k, p)[1][st][1] for k, (p, st) in param_cases() + param_print_cases()}),
+        'parameter_styles': STYLES,
+        'parameterised_statements_executed': c['param_statements'],
+        'parameterised_balances_executed': c['param_balances_statements'],
+        'parameterised_journal_executed': c['param_journal_statements'],
+        'parameterised_print_executed': c['param_print_statements'],
+        'parameterised_equal_to_literal_statement_and_parameterised_select': c['param_compared'],
+        'parameterised_nontrivial': c['param_nontrivial'],
+        'distinct_parameterised_results': len(acc.sets['param_outcomes']),
         'bj_ledgers': c['bj_ledgers'], 'print_ledgers': c['print_ledgers'],
         'print_ledgers_with_roundtrip': c['print_ledgers_with_roundtrip'],
         'balances_statements': c['balances_statements'], 'balances_fully_compared': c['balances_compared'],
@@ -1102,6 +1316,9 @@ def run(ctx):
         'validation errors about unopened accounts on re-loading are tolerated; hash_entry(exclude_meta=True) plus user metadata',
         'beanquery.parser.parse memoised by text during the check (templates are re-parsed on every compile otherwise)',
         'statements are fed as ASTs; every distinct statement text was parsed by the real parser and equals the AST',
+        'query parameters: only complete literals of the FROM expression / WHERE condition are parameterised (the grammar has no '
+        'placeholder for the JOURNAL pattern, the AT function or the OPEN / CLOSE dates); the statement is executed from text '
+        '(positional binding is defined on the text); wrong parameter counts / mixed styles / missing names are not explored here',
     ])
 
 
